@@ -22,6 +22,9 @@ CHECKS = {
  "C15": ("runtime monitor: expected-tree oracle over re-parsed builder output",
          "exploration: each builder's output is re-parsed and its namespace-resolved tree (names, exact attribute sets, order, text) compared with the tree the configuration calls for, over value classes, option combinations and clocks in 27 zones",
          "recipient parser is Go's encoding/xml via etree", "4/C15"),
+ "C19": ("runtime monitor: metadata vs behaviour oracle (published keys must verify what the SP signs and decrypt what is encrypted to them)",
+         "exploration: both metadata variants are produced for every key configuration with an encryption key, option combination, value class, zone and validity; the oracle checks endpoints, flags and validUntil against the configuration and clock, verifies an SP-signed message with the published signing key, validates an encrypted IdP-signed assertion per listed method with the published encryption key, and round-trips the XML",
+         "configurations without an encryption key are out of domain (library returns an error)", "4/C19"),
 }
 
 NOT_BUILT = "monitor not built yet in this session (planned in DESIGN.md section 4)"
